@@ -118,6 +118,8 @@ pub fn net_spec(c: &Config, horizon_s: u64) -> NetSpec {
         per_frame: None,
         tx_ts_latency_ns: 0,
         one_step: vec![],
+        path_asymmetry_ns: 0,
+        overlay: vec![],
     }
 }
 
